@@ -51,6 +51,7 @@ def scenario(rng, kind, tier):
         if kind == 'cbmm':
             sc['opts'] = dict(affiliation_eps=[0, 1e-10][int(rng.integers(2))])
             sc['D'] = int(rng.integers(2, 4))
+            sc['trainer_kw'] = dict(max_concentration=float(rng.choice([50.0, 20.0, 100.0])))
             sc['iterations'] = min(sc['iterations'], 2)
     elif integ:
         sc['opts'] = dict(spatial_weight=float(rng.choice([1.0, 0.5, 2.0])), spectral_weight=float(rng.choice([1.0, 0.2, 3.0])),
@@ -125,13 +126,16 @@ def cases(tier, seed, args):
                 sc['sal_scale'] = [1e-14, 1e6, 1e-9, 1.0][(i // 4) % 4]
             if sc['kind'] == 'cwmm' and i % 2:
                 sc['regime'] = 'separable'
+            if sc['kind'] == 'cbmm':
+                sc['regime'] = ['separable', 'degenerate'][i % 2]
+                sc['D'] = 3
             if i % 11 == 0 and sc['kind'] not in ml.INTEGRATION:
                 sc['N'] = max(2, sc['D'] - 1)         # fewer frames than channels
                 sc['K'] = 2
             out.append(dict(t='domain', **sc))
         # fixed input reproducing the recorded known finding (known_findings.json, C09)
         import json as _json, os as _os
-        out.append(_json.load(open(_os.path.join(_os.path.dirname(__file__), 'c09_known_case.json'))))
+        out.extend(_json.load(open(_os.path.join(_os.path.dirname(__file__), 'c09_known_case.json'))))
     return out
 
 
@@ -369,7 +373,7 @@ def domain_case(case):
                floor=enc.flt(opts.get('eigenvalue_floor', 1e-10)),
                norm={'eigenvalue': 'eigenvalue', 'trace': 'trace', False: 'none'}[opts.get('covariance_norm', 'eigenvalue')],
                kmin=enc.flt(1e-10),
-               kmax=enc.flt(case.get('trainer_kw', {}).get('max_concentration', 500.0) if kind != 'cbmm' else 1e300),
+               kmax=enc.flt(case.get('trainer_kw', {}).get('max_concentration', 500.0 if kind != 'cbmm' else 1e300)),
                eps=enc.flt(opts.get('affiliation_eps', 1e-10 if kind in ('cacgmm', 'gcacgmm', 'vmfcacgmm') else 0.0)),
                degenerate=case['regime'] == 'degenerate' or case['init'] == 'hard', zero_resultant=False,
                exc=ctx['exc'], exc_explicit=ctx['exc'] in EXPLICIT, fields=[], fp=ctx['fp'] + ';call=fit;domain',
@@ -381,6 +385,12 @@ def domain_case(case):
             # a class whose weighted scatter is exactly zero (all its mass on all-zero frames): every eigenvalue equal
             if np.any(np.all(lam == lam[..., :1], axis=-1) & (lam[..., 0] <= 1e-10)):
                 rec['fp'] += ';zero_scatter_class'
+        if 'complex_bingham' in getattr(ctx['model'], '__dataclass_fields__', {}):
+            lam = np.asarray(ctx['model'].complex_bingham.covariance_eigenvalues)
+            mx = lam.max(-1)
+            # duplicate-eigenvalue spreading (eps = 1e-8) can leave the largest eigenvalue at +1e-8 instead of 0
+            if np.any((mx > 0) & (mx <= 4e-8)):
+                rec['fp'] += ';bingham_duplicate_spread'
         if 'vmf' in getattr(ctx['model'], '__dataclass_fields__', {}):
             rec['zero_resultant'] = bool(np.any(np.linalg.norm(ctx['model'].vmf.mean, axis=-1) == 0))
     return [rec]
